@@ -310,6 +310,64 @@ func nilScenario(arity, n int) schk.Scenario {
 	}
 }
 
+// zeroScenario: every caller's function returns the ZERO values of the result types (a result like any
+// other: the action must still run exactly once, also for a caller arriving after quiescence).
+func zeroScenario(arity, n int) schk.Scenario {
+	type zrec struct {
+		runs  int
+		ret   [][3]int
+		later func() [3]int
+	}
+	return schk.Scenario{
+		Name: fmt.Sprintf("Once%d/%d-callers/functions-return-zero-values", arity, n), Bound: -1, RaceBound: 1,
+		Body: func(s *vrt.Sched) any {
+			r := &zrec{ret: make([][3]int, n)}
+			act := func() (int, int, int) {
+				r.runs++
+				vrt.Yield("action.step1", unsafe.Pointer(r), true)
+				return 0, 0, 0
+			}
+			var do func() [3]int
+			switch arity {
+			case 1:
+				o := new(sync2.Once1[int])
+				do = func() [3]int { a := o.Do(func() int { a, _, _ := act(); return a }); return [3]int{a, 0, 0} }
+			case 2:
+				o := new(sync2.Once2[int, int])
+				do = func() [3]int {
+					a, b := o.Do(func() (int, int) { a, b, _ := act(); return a, b })
+					return [3]int{a, b, 0}
+				}
+			default:
+				o := new(sync2.Once3[int, int, int])
+				do = func() [3]int { a, b, c := o.Do(act); return [3]int{a, b, c} }
+			}
+			for i := 0; i < n; i++ {
+				i := i
+				s.Spawn(fmt.Sprintf("caller%d", i), func() { r.ret[i] = do(); r.ret[i] = do() })
+			}
+			r.later = do
+			return r
+		},
+		Check: func(x *vrt.Exec, obs any) (*schk.Fail, string) {
+			r := obs.(*zrec)
+			if x.Panic != "" || x.Deadlock {
+				return nil, "abnormal"
+			}
+			r.later()
+			if r.runs != 1 {
+				return schk.Failf("not-exactly-once", "functions that return zero values were invoked %d times in total, want exactly 1", r.runs), ""
+			}
+			for i, v := range r.ret {
+				if v != [3]int{} {
+					return schk.Failf("wrong-result", "caller %d got %v, the invocation returned zeros", i, v), ""
+				}
+			}
+			return nil, "ok"
+		},
+	}
+}
+
 func main() {
 	r := ev.Start("C17")
 	var scs []schk.Scenario
@@ -329,6 +387,7 @@ func main() {
 	}
 	for arity := 1; arity <= 3; arity++ {
 		scs = append(scs, nilScenario(arity, 2), nilScenario(arity, 3))
+		scs = append(scs, zeroScenario(arity, 1), zeroScenario(arity, 2))
 	}
 	// many Once values in use at the same time (state shared between distinct values)
 	scs = append(scs, chainScenario(1, 70, -1), chainScenario(1, 300, -1), chainScenario(2, 70, ev.Pick(r, 1, 2)), chainScenario(2, 2, -1), chainScenario(3, 2, 2))
@@ -336,7 +395,7 @@ func main() {
 		scs = append(scs, chainScenario(1, 5000, -1), chainScenario(2, 300, 1), chainScenario(3, 70, 1))
 	}
 	schk.Main(r, scs, ev.Pick(r, 40*time.Second, 600*time.Second), func(r *ev.Run) {
-		r.Set("rule", "controlled scheduler over the instrumented sync2 package: 2, 3 (thorough: 4 and 5 without a preemption bound, 6 with bound 3) concurrent Do callers on one OnceN value, each passing its own function (distinct results, invocation counter, two internal scheduling points, completion flag written last), plus a caller after quiescence; variants where caller 0's action leaves through runtime.Goexit or a panic, and where every caller calls Do twice in a row; late callers that pass a nil function; nested chains of Do calls over up to 300 (thorough 5000) distinct Once values per thread, 1-3 threads; every interleaving of the visible operations (atomic loads/stores, mutex operations of the Once, the action's internal points) within the stated preemption bound, or all of them; the same scenarios run under the race detector inside every explored schedule")
+		r.Set("rule", "controlled scheduler over the instrumented sync2 package: 2, 3 (thorough: 4 and 5 without a preemption bound, 6 with bound 3) concurrent Do callers on one OnceN value, each passing its own function (distinct results, invocation counter, two internal scheduling points, completion flag written last), plus a caller after quiescence; variants where caller 0's action leaves through runtime.Goexit or a panic, and where every caller calls Do twice in a row; late callers that pass a nil function; functions that return the zero values of the result types; nested chains of Do calls over up to 300 (thorough 5000) distinct Once values per thread, 1-3 threads; every interleaving of the visible operations (atomic loads/stores, mutex operations of the Once, the action's internal points) within the stated preemption bound, or all of them; the same scenarios run under the race detector inside every explored schedule")
 		r.Assume("sync.Once is modelled by the standard algorithm (atomic done flag + mutex) re-expressed over the instrumented primitives")
 	})
 }
